@@ -4,8 +4,8 @@
 import json, os, subprocess, sys, glob, shutil
 
 RELATED = {  # property -> checks to try (own check first)
- "C01": ["C01", "C10", "C09", "C07", "C04", "C18"], "C02": ["C02"], "C03": ["C03", "C07", "C13", "C18"], "C04": ["C04", "C07", "C18"],
- "C05": ["C05", "C06"], "C06": ["C06", "C07"], "C07": ["C07", "C08"], "C08": ["C08"], "C09": ["C09"],
+ "C01": ["C01", "C10", "C09", "C07", "C04", "C18"], "C02": ["C02"], "C03": ["C03", "C07", "C13", "C18"], "C04": ["C04", "C07", "C18", "C13"],
+ "C05": ["C05", "C06"], "C06": ["C06", "C07"], "C07": ["C07", "C08"], "C08": ["C08"], "C09": ["C09", "C12"],
  "C10": ["C10"], "C11": ["C11", "C09", "C13"], "C12": ["C12", "C09"], "C13": ["C13", "C09"], "C14": ["C14"],
  "C15": ["C15"], "C16": ["C16"], "C17": ["C17"], "C18": ["C18", "C04"], "C19": ["C19", "C06"], "C20": ["C20"]}
 ROOT = os.environ.get("MUTROOT", "/tmp/mut")
